@@ -1,6 +1,5 @@
 import MW.Inv.WorldLedger
-import MW.Props.C07
-import MW.Props.C17
+import MW.Staking.PageLemmas
 /-!
 # Ledger invariants over the chain model: part 2, what each handler owes and emits (LST)
 
@@ -289,15 +288,15 @@ theorem facts_recover {s s' : CState} {env : Env} {info : Info} {pg : Option Boo
   have hmem : ∀ p ∈ packets, refundable recv p = true ∧ s.inflight.find? p.seq = some p := by
     intro p hpm
     rw [← hp] at hpm
-    obtain ⟨hf, k, hk⟩ := MW.Props.C07.mem_paginate _ _ _ _ p hpm
+    obtain ⟨hf, k, hk⟩ := mem_paginate _ _ _ _ p hpm
     have h1 := AMap.find?_of_mem_sorted hi.sortedI hk
     have h2 := hi.seqKey _ _ h1
     rw [h2]; exact ⟨hf, h1⟩
   have hnd : (packets.map (·.seq)).Nodup := by
-    rw [← hp, MW.Props.C17.paginate_is_page, List.map_map]
-    have hsub : List.Sublist (MW.Props.C17.page s.inflight none ((if pg.getD false = true then some 10 else none).getD U32.max)
+    rw [← hp, paginate_is_page, List.map_map]
+    have hsub : List.Sublist (page s.inflight none ((if pg.getD false = true then some 10 else none).getD U32.max)
         (refundable recv)) s.inflight := by
-      unfold MW.Props.C17.page AMap.after
+      unfold page AMap.after
       exact (List.take_sublist _ _).trans List.filter_sublist
     have hpw : List.Pairwise (fun a b : Nat × Packet => a.2.seq ≠ b.2.seq) s.inflight := by
       have hs : List.Pairwise (fun a b : Nat × Packet => a.1 < b.1) s.inflight := hi.sortedI
@@ -318,7 +317,7 @@ theorem facts_recover {s s' : CState} {env : Env} {info : Info} {pg : Option Boo
       simp only [refundable, Bool.and_eq_true, decide_eq_true_eq, Bool.or_eq_true] at h2
       exact ⟨by simpa using h1, h2.2⟩
     exact refundedAmt_sum _ _ _ hall'
-  have htotal := MW.Props.C07.sumAmounts_eq _ _ _ _ htot
+  have htotal := sumAmounts_eq _ _ _ _ htot
   have herase := sumBy_erasePackets (refundedAmt s.config.lstDenom) hi.sortedI packets hnd (fun p hpm => (hmem p hpm).2)
   subst hs' hout
   refine ⟨rfl, rfl, ?_, ?_, ?_, ?_, ?_⟩
